@@ -129,6 +129,11 @@ def _one(run, c, expect_ok, st):
     if prebound:
         e.vertices = [Vertex(vid, B.pose(c['kinds'][j], (5, 6, 7)[:B.DIM[c['kinds'][j]]], {'SE2': (1, 0, 1), 'SE3': (0, 0, 0, 1, 1)}.get(c['kinds'][j], ())))
                       for j, vid in enumerate(vids)]
+        if run.replayed % 4 == 1:
+            # ... and in every other of these histories the earlier life of the edge was that of an ordinary TWO-vertex edge whose `vertex_ids` were
+            # edited afterwards: the stale list is longer / shorter than the ids the edge names now
+            e.vertices = (e.vertices + [Vertex(990 + j, B.pose('R2', (5, 6))) for j in range(2)])[:2]
+            key['prebound_two'] = True
         key['prebound'] = True
         run.notes['prebound_edge_histories'] = run.notes.get('prebound_edge_histories', 0) + 1
     raised = None
